@@ -10,9 +10,7 @@ outputs, including the two call sites of register_command_stream_generator that 
 OFM_SCALE / OPA_SCALE / OPB_SCALE registers."""
 import math
 import multiprocessing
-import os
 import random
-import struct
 from fractions import Fraction
 
 import vlib
@@ -576,12 +574,27 @@ def run(tier):
     def conv(kind, x):
         return np.float32(x) if kind == "float32" else (np.float64(x) if kind == "float64" else x)
     ew_mismatch32 = 0
-    # np.float32 * Python int stays float32 under NumPy >= 2 (NEP 50) and widens to float64 before
+    # Precision at which np.float32 operands are evaluated: np.float32 * Python int stays float32 under NumPy >= 2
+    # (NEP 50) and widened to float64 before; a source that casts to double computes in binary64.  Probed on two
+    # fixed triples (where the two precisions give different pairs), then required of every float32 case.
     p_add32 = 24 if isinstance(np.float32(1) * 2, np.float32) else 53
+    p_mul32 = 24
+    if okx:
+        pr_a = (13421773, -27, 10066330, -25, 13421773, -26)                 # float32 0.1, 0.3, 0.2
+        got = scaling.advanced_elementwise_add_sub_scale(np.float32(0.1), np.float32(0.3), np.float32(0.2), 8)
+        for pp in (24, 53):
+            if models.run("ew_advanced", [(pp,) + pr_a + (8,)], exe_name=EXE)[0] == [int(v) for v in got]:
+                p_add32 = pp
+        ma, mb, mo = np.float32(0.00011298153549432755), np.float32(0.030169153586030006), np.float32(2.3152679204940796e-06)
+        got = scaling.elementwise_mul_scale(ma, mb, mo)
+        for pp in (24, 53):
+            if models.run("ew_mul", [(pp,) + decomp(ma) + decomp(mb) + decomp(mo)], exe_name=EXE)[0] == [int(v) for v in got]:
+                p_mul32 = pp
+    dist["float32_operand_precision"] = {"add_sub": p_add32, "mul": p_mul32}
     mul_c, mul_i, adv_c, adv_i, sim_c, sim_i = [], [], [], [], [], []
     for kind, a, c, o in ew:
         A, C, O = conv(kind, a), conv(kind, c), conv(kind, o)
-        p = 24 if kind == "float32" else 53
+        p = p_mul32 if kind == "float32" else 53
         da, dc, do = decomp(a), decomp(c), decomp(o)
         bd = rng.choice([8, 16])
         ls = 20 if bd == 8 else 15
